@@ -110,7 +110,17 @@ func propC05(c *Check) {
 					just |= w.To
 				}
 			}
-			if a.Comment == "complit" {
+			fresh := a.Comment == "complit"
+			if !fresh {
+				// a record built in place (possibly via a literal copied into a named local), never loaded
+				fresh = true
+				for _, o := range p.recordOrigins(f, a) {
+					if !strings.HasPrefix(o, "new(") {
+						fresh = false
+					}
+				}
+			}
+			if fresh {
 				just |= en.Set(wsPen, wsCed)
 			}
 			if bad := st & terminal &^ just; bad != 0 {
@@ -194,6 +204,39 @@ func propC05(c *Check) {
 							c.Violated("R3", "receipt "+strings.TrimPrefix(a, W+".")+" @ "+fnKey, p.InstrPos(in), "stored "+v+", expected "+w)
 						}
 						delete(wantStores, a)
+					}
+				}
+			}
+		}
+		// the receipt may be updated in a local copy that is then attached to the record:
+		//   receipt := *w.Receipt; receipt.Txid, receipt.Amount = …; w.Receipt = &receipt
+		if len(wantStores) > 0 {
+			for _, b := range h.Blocks {
+				for _, in := range b.Instrs {
+					st, ok := in.(*ssa.Store)
+					if !ok || r.E(st.Addr) != W+".Receipt" {
+						continue
+					}
+					al, ok := st.Val.(*ssa.Alloc)
+					if !ok {
+						continue
+					}
+					// the copy starts as the stored receipt (the other fields are kept)
+					fromStored := false
+					for _, ws := range r.wholeStores[al] {
+						if r.E(ws.Val) == "*"+W+".Receipt" || r.E(ws.Val) == W+".Receipt" {
+							fromStored = true
+						}
+					}
+					if !fromStored {
+						continue
+					}
+					for a, w := range wantStores {
+						path := strings.TrimPrefix(a, W+".Receipt")
+						if v := r.fieldAt(al, path, st, r.E(al)+path, 0); v == w {
+							c.Held("R3", "receipt "+strings.TrimPrefix(a, W+".")+" @ "+fnKey, p.InstrPos(st), v+" (in a copy of the receipt attached to the record)")
+							delete(wantStores, a)
+						}
 					}
 				}
 			}
@@ -397,6 +440,14 @@ func propC05(c *Check) {
 		for _, s := range paid[FuncKey(fin)] {
 			A = append(A, s)
 		}
+		// the notices may be collected in a local accumulator that is flushed into the queue once after the loop
+		accElem := ""
+		if len(A) == 1 {
+			if elem, apps, acc, ok := p.accumulatorForm(fin, A[0].(*ssa.Store), "PaidWithdrawals"); ok {
+				c.accumulatorFlushed(fin, "paid", apps, A[0].(*ssa.Store), acc)
+				A, accElem = apps, elem
+			}
+		}
 		c.pairing(fin, "paid", W0, A)
 		// appended id = id written
 		r := p.R(fin)
@@ -408,9 +459,9 @@ func propC05(c *Check) {
 				}
 			}
 		}
-		appOK := false
+		appOK := accElem == "new(bitcoin/types.WithdrawalExecReceipt)#0"
 		for _, a := range A {
-			if regexp.MustCompile(`^append\(.*EthTxQueue\.Get\(\)#0\.PaidWithdrawals.*, \[new\(bitcoin/types\.WithdrawalExecReceipt\)#0\]\)$`).MatchString(r.E(a.(*ssa.Store).Val)) {
+			if st, isSt := a.(*ssa.Store); isSt && regexp.MustCompile(`^append\(.*EthTxQueue\.Get\(\)#0\.PaidWithdrawals.*, \[new\(bitcoin/types\.WithdrawalExecReceipt\)#0\]\)$`).MatchString(r.E(st.Val)) {
 				appOK = true
 			}
 		}
@@ -436,7 +487,21 @@ func propC05(c *Check) {
 			A = append(A, s)
 		}
 		gets := p.FindCalls(apc, `^Withdrawals\.Get\(`)
+		accDone := false
+		if len(A) == 1 {
+			if elem, apps, acc, ok := p.accumulatorForm(apc, A[0].(*ssa.Store), "RejectedWithdrawals"); ok {
+				accDone = true
+				if elem != "$2.Id["+i+"]" {
+					c.Violated("R2", "rejected-notice @ "+FuncKey(apc), p.InstrPos(A[0]), "the id collected for the refund notice is "+elem+", not the id of the record written CANCELED")
+				} else {
+					c.pairing(apc, "rejected", W0, apps)
+					c.accumulatorFlushed(apc, "rejected", apps, A[0].(*ssa.Store), acc)
+					c.Held("R2", "rejected-notice @ "+FuncKey(apc), p.InstrPos(A[0]), "each id written CANCELED is collected once and the collection is appended to the rejected queue after the loop")
+				}
+			}
+		}
 		switch {
+		case accDone:
 		case len(A) != 1 || len(W0) != 1 || len(gets) != 1:
 			c.Violated("R2", "rejected-notice @ "+FuncKey(apc), p.Pos(apc.Pos()), fmt.Sprintf("expected one append, one →CANCELED write and one record load; found %d/%d/%d reason=not-established", len(A), len(W0), len(gets)))
 		default:
@@ -476,6 +541,12 @@ func propC05(c *Check) {
 		for _, s := range rej[FuncKey(pbr)] {
 			A = append(A, s)
 		}
+		// the accumulator starts empty: nil or a pre-sized empty slice
+		if len(A) == 1 {
+			if m := regexp.MustCompile(`^append\(EthTxQueue\.Get\(\)#0\.RejectedWithdrawals, (φ\{append\(@, \[` + regexp.QuoteMeta(id) + `\]\)\|make\(\[\]uint64,0,[^|{}]*\)\})\)$`).FindStringSubmatch(r.E(A[0].Val)); m != nil {
+				acc = m[1]
+			}
+		}
 		okShape := len(A) == 1 && r.E(A[0].Val) == "append(EthTxQueue.Get()#0.RejectedWithdrawals, "+acc+")"
 		// status CANCELED is selected exactly in the block that appends the id to the accumulator
 		okPair := false
@@ -498,6 +569,41 @@ func propC05(c *Check) {
 						}
 					}
 					okPair = n == 1 && len(pred.Succs) == 1
+				}
+			}
+		}
+		// … or the new record's status field is set to CANCELED in that block (the record starts PENDING)
+		if !okPair {
+			for _, b := range pbr.Blocks {
+				for _, in := range b.Instrs {
+					st, ok := in.(*ssa.Store)
+					if !ok || r.E(st.Val) != wsCed {
+						continue
+					}
+					fa, ok := st.Addr.(*ssa.FieldAddr)
+					if !ok || fieldName(fa.X.Type(), fa.Field) != "Status" {
+						continue
+					}
+					al, _ := rootAlloc(st.Addr)
+					if al == nil {
+						continue
+					}
+					freshRec := true
+					for _, o := range p.recordOrigins(pbr, al) {
+						if !strings.HasPrefix(o, "new(") {
+							freshRec = false
+						}
+					}
+					if !freshRec {
+						continue
+					}
+					n := 0
+					for _, pin := range b.Instrs {
+						if ci, ok := pin.(ssa.CallInstruction); ok && strings.HasPrefix(p.CallStr(ci), "append(") && strings.HasSuffix(p.CallStr(ci), ", ["+id+"])") {
+							n++
+						}
+					}
+					okPair = n == 1 && len(b.Succs) == 1
 				}
 			}
 		}
@@ -694,4 +800,47 @@ func (c *Check) outputValuesRecorded(rule string) {
 		}
 	}
 	c.Floor(rule, "per-withdrawal output value stores", n, 2)
+}
+
+
+// accumulatorForm: the store st to queue field qf is `append(queue.qf, ACC)` where ACC is a local accumulator
+// φ{append(@, [E]) | empty}: returns E, the per-element append instructions of the accumulator and ACC's rendering.
+func (p *Prog) accumulatorForm(f *ssa.Function, st *ssa.Store, qf string) (string, []ssa.Instruction, string, bool) {
+	r := p.R(f)
+	m := regexp.MustCompile(`^append\(EthTxQueue\.Get\(\)#0\.` + qf + `, (φ\{append\(@, \[(.*)\]\)\|(?:nil|make\([^|{}]*\))\})\)$`).FindStringSubmatch(r.E(st.Val))
+	if m == nil || !balancedTop(m[2]) {
+		return "", nil, "", false
+	}
+	acc, elem := m[1], m[2]
+	var apps []ssa.Instruction
+	for _, ci := range callsIn(f) {
+		if c, ok := ci.(*ssa.Call); ok && r.E(c) == "append("+acc+", ["+elem+"])" {
+			apps = append(apps, c)
+		}
+	}
+	if len(apps) == 0 {
+		return "", nil, "", false
+	}
+	return elem, apps, acc, true
+}
+
+// accumulatorFlushed: every element put into the accumulator reaches the queue before success (the flush store is
+// on every path from an accumulator append to a success exit; `len(acc) == 0` is infeasible after an append), and
+// the flush is not repeated in a loop.
+func (c *Check) accumulatorFlushed(f *ssa.Function, what string, apps []ssa.Instruction, flush *ssa.Store, acc string) {
+	p := c.p
+	key := what + "-accumulator-flushed @ " + FuncKey(f)
+	if p.R(f).blockReach(flush.Block())[flush.Block()] {
+		c.Violated("R2", key, p.InstrPos(flush), "the accumulated notices are appended to the queue inside a loop (queued more than once)")
+		return
+	}
+	empty := edgeSet(p.MatchEdges(f, regexp.MustCompile(lit(EQ("0", "len("+acc+")")))))
+	isFlush := func(in ssa.Instruction) bool { return in == ssa.Instruction(flush) }
+	for _, a := range apps {
+		if t, path := (&PathSearch{Fn: f, From: a, AvoidInstr: isFlush, AvoidEdges: empty, IsTarget: successTargets(f)}).Find(); t != nil {
+			c.Violated("R2", key, p.InstrPos(t), "a collected notice can be dropped: success is reachable without appending the accumulator to the queue", p.describePath(path)...)
+			return
+		}
+	}
+	c.Held("R2", key, p.InstrPos(flush), "every collected notice reaches the queue before success, once")
 }
